@@ -31,7 +31,7 @@ COMPONENTS = {"real": ["configure", "Model.__init__ (all module constructors)", 
 ASSUMPTIONS = ["any exception type or exit code during configure()/Model() counts as refusal",
                "an output file without records may exist after a refusal"]
 TIERS = {"quick": dict(runs=700, budget_s=45, shrink=100),
-         "thorough": dict(runs=19 * 2000 + 20000, budget_s=900, shrink=200)}
+         "thorough": dict(runs=20 * 2000 + 20000, budget_s=900, shrink=200)}
 KINDS = ["forcing_starts_late", "forcing_ends_early", "frames_out_of_order", "frame_duplicated_across_files",
          "forcing_file_missing", "grid_file_missing", "no_start", "no_stop", "no_dt", "stop_wrong_side",
          "direction_flag_wrong", "release_all_before", "release_all_at_or_after_stop", "release_without_position",
@@ -47,7 +47,8 @@ PROFILE = gen.profile(
 
 def generate(seed: int, tier: str, idx: int) -> dict:
     s = stream(seed, "c20")
-    if tier == "thorough" and idx < 19 * 2000:
+    if tier == "thorough" and idx % 20 != 19 and idx < 20 * 2000:
+        idx = idx - idx // 20        # 19 of every 20 cases walk the kinds x bases table, the 20th is a combination
         # every kind on every base: base b = idx // 19 shares its seed across the 19 kinds
         from ladsim.rng import derive
 
@@ -56,7 +57,7 @@ def generate(seed: int, tier: str, idx: int) -> dict:
         kinds = [KINDS[idx % 19]]
     else:
         sc = gen.gen_scenario(seed, PROFILE)
-        if s.chance(0.2):
+        if s.chance(0.2) or tier == "thorough":
             kinds = s.sample(KINDS, s.randint(2, 3))
         else:
             kinds = [s.pick(KINDS)]
